@@ -674,7 +674,7 @@ pub fn exec_sess_op<L: SimLang, N: Analysis<L>>(s: &mut Sess<L, N>, op: &Op, run
 }
 
 pub fn catch_op<R>(f: impl FnOnce() -> R) -> Result<R, PanicInfo> {
-    crate::exec::seam::refuel(crate::exec::DEFAULT_FUEL);
+    crate::exec::seam::refuel(crate::exec::fuel_per_op());
     let r = catch(f);
     crate::exec::seam::unlimited_fuel();
     r
